@@ -131,8 +131,20 @@ Inductive tree :=
 | TShort (n : str) (size : N) (got : str)      (* header written, reading the content fails after `got` *)
 | TMissing (n : str).                          (* Lstat fails: the declared output is not there *)
 
-(* fs.Walk + storeFile: the chunks written before the first error, and whether there was none *)
-Fixpoint walk (t : tree) : list chunk * bool :=
+(* fs.Walk + storeFile: the chunks written before the first error, and whether there was none.
+
+   Errors of entries INSIDE a directory output come back from godirwalk's callback and go through
+   its ErrorCallback; `act` is what fs.WalkMode configures there (regenerated from src/fs/walk.go:
+   no ErrorCallback = halt on every error).  WSkipEnoent is the variant that leaves out an entry
+   that no longer exists when it is visited (TMissing below a directory: the entry was listed
+   with its directory and had vanished when storeFile reached it) and goes on with its siblings. *)
+Definition skippable (act : walk_error_action) (t : tree) : bool :=
+  match act with
+  | WHalt => false
+  | WSkipEnoent => match t with TMissing _ => true | _ => false end
+  end.
+
+Fixpoint walk_a (act : walk_error_action) (t : tree) : list chunk * bool :=
   match t with
   | TFile n c => ([CReg n (len c) c], true)
   | TLink n t => ([CSym n t], true)
@@ -140,8 +152,10 @@ Fixpoint walk (t : tree) : list chunk * bool :=
       let fix go (l : list tree) : list chunk * bool :=
         match l with
         | [] => ([], true)
-        | x :: r => let '(a, ok) := walk x in
-                    if ok then let '(b, ok') := go r in (a ++ b, ok') else (a, false)
+        | x :: r => let '(a, ok) := walk_a act x in
+                    if ok then let '(b, ok') := go r in (a ++ b, ok')
+                    else if skippable act x then go r          (* nothing of x was written *)
+                    else (a, false)
         end in
       let '(b, ok) := go ch in (CDir n :: b, ok)
   | TSock _ => ([], false)
@@ -149,12 +163,58 @@ Fixpoint walk (t : tree) : list chunk * bool :=
   | TMissing _ => ([], false)
   end.
 
-(* `for _, out := range files { if err := fs.Walk(...); err != nil { ...; return } }` *)
-Fixpoint write (files : list tree) : list chunk * bool :=
+(* `for _, out := range files { if err := fs.Walk(...); err != nil { ...; return } }`
+   The root path of each walk is Lstat'ed by fs.WalkMode itself, whose error is returned
+   directly: a declared output that does not exist always ends the loop. *)
+Fixpoint write_a (act : walk_error_action) (files : list tree) : list chunk * bool :=
   match files with
   | [] => ([], true)
-  | x :: r => let '(a, ok) := walk x in
-              if ok then let '(b, ok') := write r in (a ++ b, ok') else (a, false)
+  | x :: r => let '(a, ok) := walk_a act x in
+              if ok then let '(b, ok') := write_a act r in (a ++ b, ok') else (a, false)
+  end.
+
+Definition walk : tree -> list chunk * bool := walk_a walk_callback_error_action.
+Definition write : list tree -> list chunk * bool := write_a walk_callback_error_action.
+
+(* ---- fault positions in walk order: an entry that vanishes during the store ----
+   Nodes are numbered in the order fs.Walk visits them (a directory, then its children in name
+   order, depth first), through the whole list of declared outputs.  `vanish t i` is t with
+   node i gone (with everything below it) by the time it is visited: at a top-level position
+   that is a declared output that does not exist, below a directory it is an entry that was
+   listed and then removed. *)
+Fixpoint size (t : tree) : nat :=
+  match t with
+  | TDir _ ch => S ((fix go (l : list tree) : nat := match l with [] => O | x :: r => (size x + go r)%nat end) ch)
+  | _ => 1%nat
+  end.
+
+Definition name_of (t : tree) : str :=
+  match t with
+  | TFile n _ | TLink n _ | TDir n _ | TSock n | TShort n _ _ | TMissing n => n
+  end.
+
+Fixpoint vanish (t : tree) (i : nat) {struct t} : tree :=
+  match i with
+  | O => TMissing (name_of t)
+  | S j =>
+      match t with
+      | TDir n ch =>
+          TDir n ((fix go (l : list tree) (j : nat) {struct l} : list tree :=
+                     match l with
+                     | [] => []
+                     | x :: r => if (j <? size x)%nat then vanish x j :: r else x :: go r (j - size x)%nat
+                     end) ch j)
+      | _ => t
+      end
+  end.
+
+Fixpoint size_list (l : list tree) : nat :=
+  match l with [] => O | x :: r => (size x + size_list r)%nat end.
+
+Fixpoint vanish_list (l : list tree) (j : nat) : list tree :=
+  match l with
+  | [] => []
+  | x :: r => if (j <? size x)%nat then vanish x j :: r else x :: vanish_list r (j - size x)%nat
   end.
 
 (* the loop with an error branch that only logs (the code before the fix of httpCache.write) *)
@@ -287,25 +347,45 @@ Inductive case :=
 (* store `files` through a store command that left `commit` bytes under the key, then retrieve
    through a command that emits the first `rcut` bytes of the entry and exits 0 iff exit_ok *)
 | CCmd (root : str) (files : list tree) (commit : option N) (whole : bool) (rcut : option N) (exit_ok : bool)
-       (members : list str) (hit : bool) (disk : list (str * option node)).
+       (members : list str) (hit : bool) (disk : list (str * option node))
+(* the same two with node `pos` (walk order) of the otherwise intact `files` removed DURING the
+   store, after its directory had been listed and before the archive writer reached it *)
+| CHttpV (root : str) (files : list tree) (pos : nat) (put_ok : bool) (g : get_fault)
+         (stored : bool) (tar_len : N) (members : list str) (hit : bool) (disk : list (str * option node))
+| CCmdV (root : str) (files : list tree) (pos : nat) (commit : option N) (whole : bool) (rcut : option N) (exit_ok : bool)
+        (members : list str) (hit : bool) (disk : list (str * option node)).
+
+Definition check_http (root : str) (files : list tree) (put_ok : bool) (g : get_fault)
+    (stored : bool) (tar_len : N) (members : list str) (hit : bool) (disk : list (str * option node)) : bool :=
+  let sv := http_store None files put_ok in
+  let '(h, d) := http_retrieve root sv g [] in
+  match sv with
+  | None => negb stored
+  | Some b => stored && (bytes b =? tar_len) && names_eqb (names b) members
+  end && Bool.eqb h hit && disk_matches d disk.
+
+Definition check_cmd (root : str) (files : list tree) (commit : option N) (whole : bool) (rcut : option N) (exit_ok : bool)
+    (members : list str) (hit : bool) (disk : list (str * option node)) : bool :=
+  let sent := cmd_sent files in
+  let sv := cmd_store None files commit in
+  let '(h, d) := cmd_retrieve root sv rcut exit_ok [] in
+  match commit with
+  | None => negb whole
+  | Some k => (k <=? bytes sent) && (if whole then k =? bytes sent else true)
+  end
+  && names_eqb (match sv with Some b => names b | None => [] end) members
+  && Bool.eqb h hit && disk_matches d disk.
 
 Definition check (c : case) : bool :=
   match c with
   | CHttp root files put_ok g stored tar_len members hit disk =>
-      let sv := http_store None files put_ok in
-      let '(h, d) := http_retrieve root sv g [] in
-      match sv with
-      | None => negb stored
-      | Some b => stored && (bytes b =? tar_len) && names_eqb (names b) members
-      end && Bool.eqb h hit && disk_matches d disk
+      check_http root files put_ok g stored tar_len members hit disk
   | CCmd root files commit whole rcut exit_ok members hit disk =>
-      let sent := cmd_sent files in
-      let sv := cmd_store None files commit in
-      let '(h, d) := cmd_retrieve root sv rcut exit_ok [] in
-      match commit with
-      | None => negb whole
-      | Some k => (k <=? bytes sent) && (if whole then k =? bytes sent else true)
-      end
-      && names_eqb (match sv with Some b => names b | None => [] end) members
-      && Bool.eqb h hit && disk_matches d disk
+      check_cmd root files commit whole rcut exit_ok members hit disk
+  | CHttpV root files pos put_ok g stored tar_len members hit disk =>
+      (pos <? size_list files)%nat && all_healthy files &&
+      check_http root (vanish_list files pos) put_ok g stored tar_len members hit disk
+  | CCmdV root files pos commit whole rcut exit_ok members hit disk =>
+      (pos <? size_list files)%nat && all_healthy files &&
+      check_cmd root (vanish_list files pos) commit whole rcut exit_ok members hit disk
   end.
